@@ -397,6 +397,11 @@ def blueprint_text(spec):
         lines.append("      lattice pitch:")
         lines.append("        x: 32.0")
         lines.append("        y: 32.0")
+        if spec.get("sfp_stock"):
+            # assemblies stored in the pool from the start
+            lines.append("      grid contents:")
+            for i in range(int(spec["sfp_stock"])):
+                lines.append(f"        [{i}, 0]: {'IC' if i % 2 == 0 else 'OC'}")
     return "\n".join(lines) + "\n"
 
 
